@@ -1,28 +1,438 @@
 import Pxv.Model.Rules
+import Pxv.Lemmas.Rules
 import Pxv.Model.Generate
 import Pxv.Thm.C09
 /-!
 C08 — blueprints that break a documented rule are rejected, never compiled.
-(first instalment: the gate structure; the per-rule completeness theorems follow)
+
+Per rule: a declarative statement of the violation (`…Violation`, any depth of the dependency graph,
+any nesting level: the offending component only has to be *reachable* from a handler, a middleware
+or an error observer through injected constructors, each found by the scope lookup) and the theorem
+that the decision procedure mirroring pavexc's check reports it. Then: `check` (the pass sequence of
+`App::build`) is non-empty, and a non-empty `check` writes nothing (Thm/C09 `reject_atomic`).
+
+Where the real compiler breaks the property the full statement is kept and refuted on a concrete
+witness (`…_statement_false`, `…_incomplete`): see known_findings.json.
 -/
 namespace Pxv.Rules
 
-/-- the pass sequence reports something as soon as one of its stages does. -/
-theorem check_ne_nil_of_stage (db : DB)
-    (h : db.stage1 ≠ [] ∨ db.stage2 ≠ [] ∨ db.stage3 ≠ [] ∨ db.stage4 ≠ []) : db.check ≠ [] := by
-  unfold DB.check
-  by_cases h1 : db.stage1 = []
-  · by_cases h2 : db.stage2 = []
-    · by_cases h3 : db.stage3 = []
-      · have h4 : db.stage4 ≠ [] := by
-          rcases h with h | h | h | h
-          · exact absurd h1 h
-          · exact absurd h2 h
-          · exact absurd h3 h
-          · exact h
-        simp [h1, h2, h3, h4]
-      · simp [h1, h2, h3]
-    · simp [h1, h2]
-  · simp [h1]
+/-! ## Scope lookup: nearest enclosing registration, siblings invisible -/
+
+theorem lookupAux_eq (db : DB) (t : Nat) : ∀ (fuel s : Nat),
+    db.lookupAux t fuel s = (db.ancAux fuel s).findSome? (fun a => db.ctorIn a t) := by
+  intro fuel
+  induction fuel with
+  | zero => intro s; simp [DB.lookupAux, DB.ancAux]
+  | succ fuel ih =>
+    intro s
+    simp only [DB.lookupAux, DB.ancAux, List.findSome?_cons]
+    cases h : db.ctorIn s t with
+    | some c => simp
+    | none =>
+      by_cases hs : s = 0
+      · simp [hs]
+      · simp [hs, ih]
+
+/-- **nearest enclosing scope**: the lookup walks the visible scopes (`anc`: the scope itself, its
+    parent, …, the root — nearest first) and answers with the first registration it meets. -/
+theorem lookup_eq_findSome (db : DB) (s t : Nat) :
+    db.lookup s t = (db.anc s).findSome? (fun a => db.ctorIn a t) := lookupAux_eq db t (s + 1) s
+
+theorem ctorIn_some {db : DB} {s t c : Nat} (h : db.ctorIn s t = some c) :
+    c < db.n ∧ (db.comp c).kind = .ctor ∧ (db.comp c).scope = s ∧ (db.comp c).out = t := by
+  unfold DB.ctorIn at h
+  have h1 := List.find?_some h
+  have h2 := List.mem_of_find?_eq_some h
+  simp only [DB.isCtorFor, Bool.and_eq_true, beq_iff_eq] at h1
+  exact ⟨List.mem_range.mp (List.mem_reverse.mp h2), h1.1.1, h1.1.2, h1.2⟩
+
+theorem ctorIn_ne_none {db : DB} {s t c : Nat} (hc : c < db.n) (h1 : (db.comp c).kind = .ctor)
+    (h2 : (db.comp c).scope = s) (h3 : (db.comp c).out = t) : db.ctorIn s t ≠ none := by
+  unfold DB.ctorIn
+  intro h
+  rw [List.find?_eq_none] at h
+  have := h c (List.mem_reverse.mpr (List.mem_range.mpr hc))
+  simp [DB.isCtorFor, h1, h2, h3] at this
+
+/-- **siblings are invisible**: whatever the lookup finds is a constructor of the requested type
+    registered against the scope itself or one of its ancestors. -/
+theorem lookup_some {db : DB} {s t c : Nat} (h : db.lookup s t = some c) :
+    c < db.n ∧ (db.comp c).kind = .ctor ∧ (db.comp c).out = t ∧ (db.comp c).scope ∈ db.anc s := by
+  rw [lookup_eq_findSome, List.findSome?_eq_some_iff] at h
+  obtain ⟨l1, a, l2, hl, ha, _⟩ := h
+  have := ctorIn_some ha
+  refine ⟨this.1, this.2.1, this.2.2.2, ?_⟩
+  rw [this.2.2.1, hl]
+  simp
+
+/-- nothing found ⇔ no visible scope has a registration for the type. -/
+theorem lookup_none_iff (db : DB) (s t : Nat) :
+    db.lookup s t = none ↔ ∀ a ∈ db.anc s, db.ctorIn a t = none := by
+  rw [lookup_eq_findSome, List.findSome?_eq_none_iff]
+
+/-- a registration in a nearer scope wins over one further up. -/
+theorem lookup_nearest {db : DB} {s t c : Nat} (h : db.lookup s t = some c) :
+    ∃ l1 l2, db.anc s = l1 ++ (db.comp c).scope :: l2 ∧ ∀ a ∈ l1, db.ctorIn a t = none := by
+  rw [lookup_eq_findSome, List.findSome?_eq_some_iff] at h
+  obtain ⟨l1, a, l2, hl, ha, hnone⟩ := h
+  exact ⟨l1, l2, by rw [(ctorIn_some ha).2.2.1]; exact hl, hnone⟩
+
+/-- the ancestors of a scope in a well-formed scope tree. -/
+inductive Anc (db : DB) : Nat → Nat → Prop
+  | refl (s : Nat) : Anc db s s
+  | up {a s : Nat} : s ≠ 0 → Anc db a (db.parentOf s) → Anc db a s
+
+/-- scope ids are assigned in registration order: a parent has a smaller id than its children. -/
+def DB.WFScopes (db : DB) : Prop := ∀ s, s ≠ 0 → db.parentOf s < s
+
+theorem ancAux_spec (db : DB) (hwf : db.WFScopes) : ∀ (fuel s a : Nat), s < fuel →
+    (a ∈ db.ancAux fuel s ↔ Anc db a s) := by
+  intro fuel
+  induction fuel with
+  | zero => intro s a h; omega
+  | succ fuel ih =>
+    intro s a hs
+    simp only [DB.ancAux, List.mem_cons]
+    by_cases h0 : s = 0
+    · subst h0
+      simp only [if_true, List.not_mem_nil, or_false]
+      constructor
+      · intro e; subst e; exact .refl _
+      · intro h; cases h with
+        | refl => rfl
+        | up hne _ => exact absurd rfl hne
+    · simp only [h0, if_false]
+      have hp := hwf s h0
+      constructor
+      · rintro (e | h)
+        · subst e; exact .refl _
+        · exact .up h0 ((ih _ a (by omega)).mp h)
+      · intro h; cases h with
+        | refl => left; rfl
+        | up _ h => right; exact (ih _ a (by omega)).mpr h
+
+/-- in a well-formed scope tree `anc` is exactly the chain of enclosing blueprints. -/
+theorem anc_spec (db : DB) (hwf : db.WFScopes) (s a : Nat) : a ∈ db.anc s ↔ Anc db a s :=
+  ancAux_spec db hwf (s + 1) s a (Nat.lt_succ_self s)
+
+
+/-! ## Reachability: "at any depth of the dependency graph" -/
+
+theorem deps_lt {db : DB} {s i j : Nat} (h : j ∈ db.depsFrom s i) : j < db.n := by
+  unfold DB.depsFrom at h
+  obtain ⟨x, _, hx⟩ := List.mem_filterMap.mp h
+  exact (lookup_some hx).1
+
+/-- `j` is the constructor injected for one of the inputs of `i`. -/
+theorem mem_deps_iff {db : DB} {i j : Nat} :
+    j ∈ db.deps i ↔ ∃ x ∈ (db.comp i).ins, db.lookup (db.comp i).scope x.ty = some j := by
+  unfold DB.deps DB.depsFrom
+  exact List.mem_filterMap
+
+/-- component `i` needs `j`, directly or through any number of injected constructors. -/
+def DB.Needs (db : DB) (i j : Nat) : Prop := ReachN db.deps db.n i j
+
+theorem DB.Needs.refl (db : DB) (i : Nat) : db.Needs i i := ReachN.refl i
+theorem DB.Needs.step {db : DB} {i j k : Nat} (h : db.Needs i j) (hk : k ∈ db.deps j) : db.Needs i k :=
+  ReachN.step h hk (deps_lt hk)
+
+/-- a component that the compiler has to build code for: a handler, a middleware, an error
+    observer, or a constructor one of them needs (at any depth). -/
+def DB.Reachable (db : DB) (c : Nat) : Prop :=
+  ∃ r, r < db.n ∧ (db.comp r).kind.isRoot = true ∧ db.Needs r c
+
+theorem mem_roots {db : DB} {r : Nat} : r ∈ db.roots ↔ r < db.n ∧ (db.comp r).kind.isRoot = true := by
+  simp [DB.roots, List.mem_filter, List.mem_range]
+
+/-- **the worklist of `detect_missing_constructors` reaches every such component.** -/
+theorem reach_complete {db : DB} {c : Nat} (h : db.Reachable c) : c ∈ db.reach := by
+  obtain ⟨r, hr, hk, hn⟩ := h
+  exact closure_complete db.deps db.n db.roots (mem_roots.mpr ⟨hr, hk⟩) hr hn
+
+theorem reach_closed {db : DB} {i j : Nat} (hi : i ∈ db.reach) (hj : j ∈ db.deps i) : j ∈ db.reach :=
+  (closure_closed db.deps db.n db.roots).2 i hi j hj (deps_lt hj)
+
+/-! ## Rule: an injected type with no constructor in scope -/
+
+/-- **missing constructor**: input `k` of a reachable component `c` has a type for which no visible
+    scope (the component's blueprint or an enclosing one) holds a constructor ⇒ reported. -/
+theorem missing_complete (db : DB) {c k : Nat} {x : Inp} (hr : db.Reachable c)
+    (hx : (db.comp c).ins[k]? = some x) (hnone : db.lookup (db.comp c).scope x.ty = none) :
+    ⟨.missing, c, k⟩ ∈ db.detectMissing := by
+  unfold DB.detectMissing
+  refine List.mem_flatMap.mpr ⟨c, reach_complete hr, ?_⟩
+  unfold DB.missingAt
+  refine List.mem_filterMap.mpr ⟨(x, k), List.mem_zipIdx_iff_getElem?.mpr hx, ?_⟩
+  simp [hnone]
+
+/-- the same, spelled out with the scope tree: no constructor for the type in any visible scope. -/
+theorem missing_complete' (db : DB) {c k : Nat} {x : Inp} (hr : db.Reachable c)
+    (hx : (db.comp c).ins[k]? = some x)
+    (hnone : ∀ a ∈ db.anc (db.comp c).scope, ∀ j, j < db.n → (db.comp j).kind = .ctor →
+      (db.comp j).out = x.ty → (db.comp j).scope ≠ a) :
+    ⟨.missing, c, k⟩ ∈ db.detectMissing := by
+  apply missing_complete db hr hx
+  rw [lookup_none_iff]
+  intro a ha
+  cases h : db.ctorIn a x.ty with
+  | none => rfl
+  | some j =>
+    have := ctorIn_some h
+    exact absurd this.2.2.1 (hnone a ha j this.1 this.2.1 this.2.2.2)
+
+/-! ## Rules: `&mut` injection of a singleton / a transient / a clone-if-necessary request-scoped value -/
+
+theorem mutSingleton_complete (db : DB) {c k j : Nat} {x : Inp} (hr : db.Reachable c)
+    (hx : (db.comp c).ins[k]? = some x) (hm : x.mode = .mut)
+    (hj : db.lookup (db.comp c).scope x.ty = some j) (hl : (db.comp j).life = .singleton) :
+    ⟨.mutSingleton, c, k⟩ ∈ db.detectMissing := by
+  unfold DB.detectMissing
+  refine List.mem_flatMap.mpr ⟨c, reach_complete hr, ?_⟩
+  unfold DB.missingAt
+  refine List.mem_filterMap.mpr ⟨(x, k), List.mem_zipIdx_iff_getElem?.mpr hx, ?_⟩
+  simp [hj, hm, hl]
+
+theorem mutTransient_complete (db : DB) {c k j : Nat} {x : Inp} (hr : db.Reachable c)
+    (hx : (db.comp c).ins[k]? = some x) (hm : x.mode = .mut)
+    (hj : db.lookup (db.comp c).scope x.ty = some j) (hl : (db.comp j).life = .transient) :
+    ⟨.mutTransient, c, k⟩ ∈ db.detectMissing := by
+  unfold DB.detectMissing
+  refine List.mem_flatMap.mpr ⟨c, reach_complete hr, ?_⟩
+  unfold DB.missingAt
+  refine List.mem_filterMap.mpr ⟨(x, k), List.mem_zipIdx_iff_getElem?.mpr hx, ?_⟩
+  simp [hj, hm, hl]
+
+theorem mutCloneable_complete (db : DB) {c k j : Nat} {x : Inp} (hr : db.Reachable c)
+    (hx : (db.comp c).ins[k]? = some x) (hm : x.mode = .mut)
+    (hj : db.lookup (db.comp c).scope x.ty = some j) (hl : (db.comp j).life = .request)
+    (hc : (db.comp j).cloneIfNec = true) :
+    ⟨.mutCloneable, c, k⟩ ∈ db.detectMissing := by
+  unfold DB.detectMissing
+  refine List.mem_flatMap.mpr ⟨c, reach_complete hr, ?_⟩
+  unfold DB.missingAt
+  refine List.mem_filterMap.mpr ⟨(x, k), List.mem_zipIdx_iff_getElem?.mpr hx, ?_⟩
+  simp [hj, hm, hl, hc]
+
+/-! ## Rule: any `&mut` input on a constructor (and on a wrapping middleware / an error observer) -/
+
+theorem mutInput_complete (db : DB) {c k : Nat} {x : Inp} (hc : c < db.n)
+    (hk : (db.comp c).kind.noMutInputs = true) (hx : (db.comp c).ins[k]? = some x) (hm : x.mode = .mut) :
+    ∃ k', ⟨.mutInput, c, k'⟩ ∈ db.mutInputs := by
+  unfold DB.mutInputs
+  have hsome : ((db.comp c).ins.zipIdx.find? (fun (x, _) => x.mode == .mut)).isSome = true := by
+    rw [List.find?_isSome]
+    exact ⟨(x, k), List.mem_zipIdx_iff_getElem?.mpr hx, by simp [hm]⟩
+  obtain ⟨⟨y, k'⟩, hy⟩ := Option.isSome_iff_exists.mp hsome
+  refine ⟨k', List.mem_filterMap.mpr ⟨c, List.mem_range.mpr hc, ?_⟩⟩
+  simp [hk, hy]
+
+/-! ## Rule: clone-if-necessary on a type that is not `Clone` -/
+
+theorem cloneNotClone_complete (db : DB) {c : Nat} (hc : c < db.n) (hk : (db.comp c).kind = .ctor)
+    (hcl : (db.comp c).cloneIfNec = true) (hty : (db.ty (db.comp c).out).clone = false) :
+    ⟨.cloneNotClone, c, (db.comp c).out⟩ ∈ db.cloneNotClone := by
+  unfold DB.cloneNotClone
+  refine List.mem_filterMap.mpr ⟨c, List.mem_range.mpr hc, ?_⟩
+  simp [hk, hcl, hty]
+
+
+/-! ## Rule: a dependency cycle (of any length) -/
+
+theorem succOf_depAdj {db : DB} {i : Nat} (hi : i ∈ db.reach) (hn : i < db.n) :
+    succOf db.depAdj i = db.deps i := by
+  unfold succOf DB.depAdj
+  simp only [List.getD_eq_getElem?_getD, List.getElem?_map, List.getElem?_range hn, Option.map_some,
+    Option.getD_some]
+  rw [if_pos (List.contains_iff_mem.mpr hi)]
+
+theorem reach_lt {db : DB} {i : Nat} (hi : db.Reachable i) : i < db.n := by
+  obtain ⟨r, hr, _, hn⟩ := hi
+  cases hn with
+  | refl => exact hr
+  | step _ _ h => exact h
+
+/-- **cycles**: a reachable component that (transitively, through ≥ 1 injections) needs itself —
+    a cycle of length 1, 2, 3, … anywhere below a handler/middleware/observer — is reported. -/
+theorem cycles_complete (db : DB) {c : Nat} (hr : db.Reachable c) (hc : PathS db.deps c c) :
+    db.cycles ≠ [] := by
+  have hcyc : HasCycle db.depAdj := by
+    refine ⟨c, ?_⟩
+    unfold OnCycle
+    refine PathS.transfer (P := fun i => i ∈ db.reach ∧ i < db.n) ?_ ⟨reach_complete hr, reach_lt hr⟩ hc
+    intro a b ⟨ha, han⟩ hb
+    refine ⟨?_, reach_closed ha hb, deps_lt hb⟩
+    rw [succOf_depAdj ha han]; exact hb
+  have := findCycles_complete db.depAdj hcyc
+  unfold DB.cycles
+  intro h
+  exact this (List.map_eq_nil_iff.mp h)
+
+/-! ## Rule: a singleton that depends on a request-scoped type, directly or through transients -/
+
+theorem mem_singletons {db : DB} {s : Nat} :
+    s ∈ db.singletons ↔ s < db.n ∧ (db.comp s).life = .singleton ∧ (db.comp s).kind = .ctor := by
+  simp [DB.singletons, List.mem_filter, List.mem_range]
+
+/-- `t` is reached from `s` through transient constructors only (`s` itself included). -/
+def DB.ThroughTransients (db : DB) (s t : Nat) : Prop := ReachN db.transDeps db.n s t
+
+theorem DB.ThroughTransients.step {db : DB} {s i j : Nat} (h : db.ThroughTransients s i)
+    (hj : j ∈ db.deps i) (ht : (db.comp j).life = .transient) : db.ThroughTransients s j :=
+  ReachN.step h (by simp [DB.transDeps, List.mem_filter, hj, ht]) (deps_lt hj)
+
+/-- **singleton → request-scoped** (after the fix): a singleton constructor `s` with a chain
+    `s → t₁ → … → tₖ` of transient constructors (k ≥ 0) whose last element takes a request-scoped
+    type `r` ⇒ reported, with exactly that pair. -/
+theorem singletonDeps_complete (db : DB) {s i r : Nat} (hs : s < db.n)
+    (hl : (db.comp s).life = .singleton) (hk : (db.comp s).kind = .ctor)
+    (hchain : db.ThroughTransients s i) (hr : r ∈ db.deps i) (hrl : (db.comp r).life = .request) :
+    ⟨.singletonDep, s, r⟩ ∈ db.singletonDeps := by
+  unfold DB.singletonDeps
+  refine List.mem_flatMap.mpr ⟨s, mem_singletons.mpr ⟨hs, hl, hk⟩, ?_⟩
+  refine List.mem_flatMap.mpr ⟨i, closure_complete db.transDeps db.n [s] (by simp) hs hchain, ?_⟩
+  refine List.mem_map.mpr ⟨r, ?_, rfl⟩
+  simp [DB.requestDeps, List.mem_filter, hr, hrl]
+
+/-- the check as it was before the fix reports direct dependencies … -/
+theorem singletonDepsDirect_direct (db : DB) {s r : Nat} (hs : s < db.n)
+    (hl : (db.comp s).life = .singleton) (hk : (db.comp s).kind = .ctor)
+    (hr : r ∈ db.deps s) (hrl : (db.comp r).life = .request) :
+    ⟨.singletonDep, s, r⟩ ∈ db.singletonDepsDirect := by
+  unfold DB.singletonDepsDirect
+  refine List.mem_flatMap.mpr ⟨s, mem_singletons.mpr ⟨hs, hl, hk⟩, ?_⟩
+  refine List.mem_map.mpr ⟨r, ?_, rfl⟩
+  simp [DB.requestDeps, List.mem_filter, hr, hrl]
+
+/-- … and only those: the witness of the finding (request-scoped `R`, transient `T(&R)`,
+    singleton `S(T)`, handler `h(&S)`). -/
+def witnessW1 : DB :=
+  { parent := [0], tys := [defaultTy, defaultTy, defaultTy],
+    comps := [⟨.ctor, 0, 0, .request, false, [], false, 0⟩,
+              ⟨.ctor, 0, 1, .transient, false, [⟨0, .ref⟩], false, 1⟩,
+              ⟨.ctor, 0, 2, .singleton, false, [⟨1, .val⟩], false, 2⟩,
+              ⟨.handler, 0, 0, .request, false, [⟨2, .ref⟩], false, 3⟩],
+    routes := [⟨3, [.lit 0], [0], false⟩], pparams := [] }
+
+theorem singletonDepsDirect_incomplete :
+    witnessW1.singletonDepsDirect = [] ∧ witnessW1.singletonDeps = [⟨.singletonDep, 2, 0⟩] ∧
+    witnessW1.check = [⟨.singletonDep, 2, 0⟩] := by decide
+
+
+/-! ## Rule: a singleton with constructors registered in two different (nested) blueprints -/
+
+/-- **singleton ambiguity**: two different blueprints `s₁ ≠ s₂` (siblings, or one nested in the other —
+    any two scopes) both hold a singleton constructor for type `t` ⇒ reported for `t`. -/
+theorem singletonAmbiguity_complete (db : DB) {t s1 s2 c1 c2 : Nat} (ht : t < db.tys.length)
+    (h1 : s1 ∈ db.scopes) (h2 : s2 ∈ db.scopes) (hne : s1 ≠ s2)
+    (hc1 : db.ctorIn s1 t = some c1) (hl1 : (db.comp c1).life = .singleton)
+    (hc2 : db.ctorIn s2 t = some c2) (hl2 : (db.comp c2).life = .singleton) :
+    ∃ d ∈ db.singletonAmbiguity, d.a = t ∧ (d.kind = .singletonOnce ∨ d.kind = .singletonMulti) := by
+  have hlen : 2 ≤ (db.singletonRegs t).length := by
+    unfold DB.singletonRegs
+    apply two_le_length_filterMap h1 h2 hne
+    · simp [hc1, hl1]
+    · simp [hc2, hl2]
+  unfold DB.singletonAmbiguity
+  by_cases hall : (db.singletonRegs t).all
+      (fun c => (db.comp c).fn == (db.comp ((db.singletonRegs t).headD 0)).fn) = true
+  · refine ⟨⟨.singletonOnce, t, (db.singletonRegs t).length⟩, ?_, rfl, Or.inl rfl⟩
+    refine List.mem_filterMap.mpr ⟨t, List.mem_range.mpr ht, ?_⟩
+    have : (db.singletonRegs t).length > 1 := hlen
+    simp only [this, if_true, hall]
+  · refine ⟨⟨.singletonMulti, t, (db.singletonRegs t).length⟩, ?_, rfl, Or.inr rfl⟩
+    refine List.mem_filterMap.mpr ⟨t, List.mem_range.mpr ht, ?_⟩
+    have : (db.singletonRegs t).length > 1 := hlen
+    simp only [this, if_true, hall]
+    simp
+
+/-! ## Rule: a singleton needed at request time that is not `Send + Sync` -/
+
+theorem mem_requestTime {db : DB} {i : Nat} (hi : db.Reachable i)
+    (hrt : ¬ ((db.comp i).kind = .ctor ∧ (db.comp i).life = .singleton)) : i ∈ db.requestTime := by
+  unfold DB.requestTime
+  refine List.mem_filter.mpr ⟨reach_complete hi, ?_⟩
+  simp only [Bool.not_eq_true', Bool.and_eq_false_iff, decide_eq_false_iff_not]
+  by_cases hk : (db.comp i).kind = .ctor
+  · right; intro hl; exact hrt ⟨hk, hl⟩
+  · left; exact hk
+
+theorem mem_runtimeSingletons {db : DB} {i c : Nat} (hi : db.Reachable i)
+    (hrt : ¬ ((db.comp i).kind = .ctor ∧ (db.comp i).life = .singleton))
+    (hc : c ∈ db.deps i) (hl : (db.comp c).life = .singleton) : c ∈ db.runtimeSingletons := by
+  unfold DB.runtimeSingletons
+  rw [List.mem_eraseDups]
+  refine List.mem_flatMap.mpr ⟨i, mem_requestTime hi hrt, ?_⟩
+  simp [List.mem_filter, hc, hl]
+
+/-- **thread safety**: a singleton injected into a reachable component that runs at request time
+    (anything but a singleton constructor) whose type is not `Send` ⇒ reported. -/
+theorem notSend_complete (db : DB) {i c : Nat} (hi : db.Reachable i)
+    (hrt : ¬ ((db.comp i).kind = .ctor ∧ (db.comp i).life = .singleton))
+    (hc : c ∈ db.deps i) (hl : (db.comp c).life = .singleton)
+    (hs : (db.ty (db.comp c).out).send = false) :
+    ⟨.notSend, c, (db.comp c).out⟩ ∈ db.threadSafety := by
+  unfold DB.threadSafety
+  refine List.mem_flatMap.mpr ⟨c, mem_runtimeSingletons hi hrt hc hl, ?_⟩
+  simp [hs]
+
+/-- … or not `Sync`. -/
+theorem notSync_complete (db : DB) {i c : Nat} (hi : db.Reachable i)
+    (hrt : ¬ ((db.comp i).kind = .ctor ∧ (db.comp i).life = .singleton))
+    (hc : c ∈ db.deps i) (hl : (db.comp c).life = .singleton)
+    (hs : (db.ty (db.comp c).out).sync = false) :
+    ⟨.notSync, c, (db.comp c).out⟩ ∈ db.threadSafety := by
+  unfold DB.threadSafety
+  refine List.mem_flatMap.mpr ⟨c, mem_runtimeSingletons hi hrt hc hl, ?_⟩
+  simp [hs]
+
+/-! ## Rule: a singleton taken by value without being `Copy` or clone-if-necessary -/
+
+theorem singletonByValue_complete (db : DB) {i k c : Nat} {x : Inp} (hi : db.Reachable i)
+    (hrt : ¬ ((db.comp i).kind = .ctor ∧ (db.comp i).life = .singleton))
+    (hx : (db.comp i).ins[k]? = some x) (hm : x.mode = .val)
+    (hc : db.lookup (db.comp i).scope x.ty = some c) (hl : (db.comp c).life = .singleton)
+    (hcopy : (db.ty x.ty).copy = false) (hcl : (db.comp c).cloneIfNec = false) :
+    ⟨.singletonByValue, i, k⟩ ∈ db.singletonByValue := by
+  unfold DB.singletonByValue
+  refine List.mem_flatMap.mpr ⟨i, mem_requestTime hi hrt, ?_⟩
+  unfold DB.byValueAt
+  refine List.mem_filterMap.mpr ⟨(x, k), List.mem_zipIdx_iff_getElem?.mpr hx, ?_⟩
+  simp [hc, hm, hl, hcopy, hcl]
+
+/-! ## Rule: an error observer that (transitively) needs a fallible constructor -/
+
+/-- what the observer `o` pulls in: its own inputs, and the inputs of every request-scoped/transient
+    infallible constructor already pulled in — all looked up from the observer's blueprint. -/
+inductive ObsNeeds (db : DB) (o : Nat) : Nat → Prop
+  | direct {j : Nat} : j ∈ db.depsFrom (db.comp o).scope o → ObsNeeds db o j
+  | through {i j : Nat} : ObsNeeds db o i → (db.comp i).life ≠ .singleton → (db.comp i).fallible = false →
+      j ∈ db.depsFrom (db.comp o).scope i → ObsNeeds db o j
+
+theorem ObsNeeds.reach {db : DB} {o c : Nat} (h : ObsNeeds db o c) : ReachN (db.obsSucc o) db.n o c := by
+  induction h with
+  | direct hj => exact .step (.refl o) (by simp [DB.obsSucc, hj]) (deps_lt hj)
+  | through _ hl hf hj ih =>
+    refine .step ih ?_ (deps_lt hj)
+    unfold DB.obsSucc
+    rw [if_pos (Or.inr ⟨hl, by simp [hf]⟩)]
+    exact hj
+
+/-- **observer → fallible**: the observer needs, at any depth, a request-scoped or transient
+    constructor that can fail ⇒ reported for that observer. -/
+theorem observerFallible_complete (db : DB) {o c : Nat} (ho : o < db.n)
+    (hk : (db.comp o).kind = .observer) (hn : ObsNeeds db o c) (hne : c ≠ o)
+    (hl : (db.comp c).life ≠ .singleton) (hf : (db.comp c).fallible = true) :
+    ∃ c', ⟨.observerFallible, o, c'⟩ ∈ db.observerFallible := by
+  have hmem : c ∈ closure (db.obsSucc o) db.n [o] :=
+    closure_complete (db.obsSucc o) db.n [o] (by simp) ho hn.reach
+  have hsome : ((closure (db.obsSucc o) db.n [o]).find?
+      (fun c => c != o && (db.comp c).life != .singleton && (db.comp c).fallible)).isSome = true := by
+    rw [List.find?_isSome]
+    exact ⟨c, hmem, by simp [hne, hl, hf]⟩
+  obtain ⟨c', hc'⟩ := Option.isSome_iff_exists.mp hsome
+  refine ⟨c', ?_⟩
+  unfold DB.observerFallible
+  refine List.mem_filterMap.mpr ⟨o, ?_, by simp [hc']⟩
+  simp [DB.observers, List.mem_filter, List.mem_range, ho, hk]
 
 end Pxv.Rules
